@@ -192,6 +192,8 @@ func (server *SugarDB) getValues(ctx context.Context, keys []string) map[string]
 		}
 
 		if entry.ExpireAt != (time.Time{}) && entry.ExpireAt.Before(server.clock.Now()) {
+			// In a cluster the deletion names the expiry it is about, so that it cannot remove a newer value.
+			expiredCtx := context.WithValue(ctx, "ExpiredAt", entry.ExpireAt.UnixNano())
 			if !server.isInCluster() {
 				// If in standalone mode, delete the key directly.
 				err := server.deleteKey(ctx, key)
@@ -201,7 +203,7 @@ func (server *SugarDB) getValues(ctx context.Context, keys []string) map[string]
 			} else if server.isInCluster() && server.raft.IsRaftLeader() {
 				// If we're in a raft cluster, and we're the leader, send command to delete the key in the cluster.
 				// The store lock is held here, so the deletion is only enqueued.
-				err := server.raftEnqueueDeleteKey(ctx, key)
+				err := server.raftEnqueueDeleteKey(expiredCtx, key)
 				if err != nil {
 					log.Printf("keyExists: %+v\n", err)
 				}
@@ -209,7 +211,7 @@ func (server *SugarDB) getValues(ctx context.Context, keys []string) map[string]
 				// Forward message to leader to initiate key deletion.
 				// This is always called regardless of ForwardCommand config value
 				// because we always want to remove expired keys.
-				server.memberList.ForwardDeleteKey(ctx, key)
+				server.memberList.ForwardDeleteKey(expiredCtx, key)
 			}
 			values[key] = nil
 			continue
@@ -744,7 +746,7 @@ func (server *SugarDB) evictKeysWithExpiredTTL(ctx context.Context) error {
 			}
 		} else if server.isInCluster() && server.raft.IsRaftLeader() {
 			// The store lock is held here, so the deletion is only enqueued.
-			if err := server.raftEnqueueDeleteKey(ctx, k); err != nil {
+			if err := server.raftEnqueueDeleteKey(context.WithValue(ctx, "ExpiredAt", entry.ExpireAt.UnixNano()), k); err != nil {
 				server.storeLock.Unlock()
 				return fmt.Errorf("evictKeysWithExpiredTTL -> cluster delete: %+v", err)
 			}
